@@ -146,14 +146,24 @@ Inductive op :=
 | OBudget (b : option Z)
 | OLoadRegions                 (* LoadRegions with a collecting callback *)
 | OLoadOnce                    (* LoadRegionsOnce with a collecting callback *)
-| OLoadIntoCache.              (* LoadRegions(CheckAndPutRegion) into an empty BasicCluster *)
+| OLoadIntoCache               (* LoadRegions(CheckAndPutRegion) into an empty BasicCluster *)
+(* storage faults on Storage.Base (memKV / etcd): the call returns an error; `applied` = the write reached the
+   storage nevertheless (the unknown-outcome case) *)
+| OSaveStoreF (id payload : Z) (applied : bool)
+| ODeleteStoreF (id : Z) (applied : bool)
+| OSaveWeightF (id lw rw : Z) (stage : nat) (applied : bool)   (* stage 0: the leader-weight write fails, 1: the region-weight write *)
+| OSaveRegionF (id : Z) (v : rv) (applied : bool)
+| ODeleteRegionF (id : Z) (applied : bool)
+| OTick                        (* RegionStorage's timed background flush fires (3 s after the last save) *)
+| OCrashInFlush (written : bool). (* the process stops inside a flush: the leveldb batch write is atomic — all or nothing *)
 
 Inductive obs :=
 | BUnit
 | BStores (st : status) (l : list (Z * Z * Z * Z))           (* id, payload, leader weight, region weight *)
 | BRegions (st : status) (l : list (Z * rv))
 | BCache (st : status) (loaded : list (Z * rv)) (cache_sorted : list (Z * rv)) (storage_after : list (Z * rv))
-| BSkipped.                                                   (* LoadRegionsOnce: already loaded *)
+| BSkipped                                                    (* LoadRegionsOnce: already loaded *)
+| BErr.                                                       (* the call returned an error *)
 
 Definition weight_of (m : amap Z) (id : Z) : Z := match lookup m id with Some w => w | None => default_weight end.
 
@@ -175,31 +185,36 @@ Definition collect_regions (s : sstate) : sstate * obs :=
   let '(st, acc, m', _) := load_regions (faults_of s rs) no_cb (regions_of s rs) tt in
   (set_regions s rs m', BRegions st acc).
 
-Definition run_op (s : sstate) (o : op) : sstate * obs :=
-  match o with
-  | OSaveStore id p =>
-      (SS (put (stores s) id p) (lweight s) (rweight s) (base_r s) (ldb s) (batch s) (cache_size s) (use_rs s) (loaded_once s) (budget s), BUnit)
-  | ODeleteStore id =>
-      (SS (del (stores s) id) (lweight s) (rweight s) (base_r s) (ldb s) (batch s) (cache_size s) (use_rs s) (loaded_once s) (budget s), BUnit)
-  | OSaveWeight id lw rw =>
-      (SS (stores s) (put (lweight s) id lw) (put (rweight s) id rw) (base_r s) (ldb s) (batch s) (cache_size s) (use_rs s) (loaded_once s) (budget s), BUnit)
-  | OLoadStores =>
-      let '(st, acc) := load_stores (stores s) in
-      (s, BStores st (map (fun it => (fst it, snd it, weight_of (lweight s) (fst it), weight_of (rweight s) (fst it))) acc))
-  | OSaveRegion id v =>
+Definition save_region (s : sstate) (id : Z) (v : rv) : sstate * obs :=
       if use_rs s then
         (* RegionStorage.SaveRegion *)
         let b := put (batch s) id v in
         if cache_size s <? batch_size - 1
         then (SS (stores s) (lweight s) (rweight s) (base_r s) (ldb s) b (cache_size s + 1) (use_rs s) (loaded_once s) (budget s), BUnit)
         else (flush_batch (SS (stores s) (lweight s) (rweight s) (base_r s) (ldb s) b (cache_size s) (use_rs s) (loaded_once s) (budget s)), BUnit)
-      else (SS (stores s) (lweight s) (rweight s) (put (base_r s) id v) (ldb s) (batch s) (cache_size s) (use_rs s) (loaded_once s) (budget s), BUnit)
-  | ODeleteRegion id =>
+      else (SS (stores s) (lweight s) (rweight s) (put (base_r s) id v) (ldb s) (batch s) (cache_size s) (use_rs s) (loaded_once s) (budget s), BUnit).
+
+Definition delete_region (s : sstate) (id : Z) : sstate * obs :=
       (* deleteRegion(kv, region) = kv.Remove; RegionStorage.Remove drops the pending batch entry, then leveldb's *)
       if use_rs s
       then (SS (stores s) (lweight s) (rweight s) (base_r s) (del (ldb s) id) (del (batch s) id) (cache_size s)
                (use_rs s) (loaded_once s) (budget s), BUnit)
-      else (set_regions s false (del (base_r s) id), BUnit)
+      else (set_regions s false (del (base_r s) id), BUnit).
+
+Definition run_op (s : sstate) (o : op) : sstate * obs :=
+  match o with
+  | OSaveStore id p =>
+      (SS (put (stores s) id p) (lweight s) (rweight s) (base_r s) (ldb s) (batch s) (cache_size s) (use_rs s) (loaded_once s) (budget s), BUnit)
+  | ODeleteStore id =>
+      (* DeleteStore removes the two weight keys together with the record (eebcdab) *)
+      (SS (del (stores s) id) (del (lweight s) id) (del (rweight s) id) (base_r s) (ldb s) (batch s) (cache_size s) (use_rs s) (loaded_once s) (budget s), BUnit)
+  | OSaveWeight id lw rw =>
+      (SS (stores s) (put (lweight s) id lw) (put (rweight s) id rw) (base_r s) (ldb s) (batch s) (cache_size s) (use_rs s) (loaded_once s) (budget s), BUnit)
+  | OLoadStores =>
+      let '(st, acc) := load_stores (stores s) in
+      (s, BStores st (map (fun it => (fst it, snd it, weight_of (lweight s) (fst it), weight_of (rweight s) (fst it))) acc))
+  | OSaveRegion id v => save_region s id v
+  | ODeleteRegion id => delete_region s id
   | OFlush => (flush_batch s, BUnit)
   | OSwitch rs => (SS (stores s) (lweight s) (rweight s) (base_r s) (ldb s) (batch s) (cache_size s) rs (loaded_once s) (budget s), BUnit)
   | OCrash => (SS (stores s) (lweight s) (rweight s) (base_r s) (ldb s) [] 0 (use_rs s) false (budget s), BUnit)
@@ -217,6 +232,27 @@ Definition run_op (s : sstate) (o : op) : sstate * obs :=
              | _ => (s', b)
              end
       else collect_regions s
+  | OSaveStoreF id p applied =>
+      (if applied then SS (put (stores s) id p) (lweight s) (rweight s) (base_r s) (ldb s) (batch s) (cache_size s) (use_rs s) (loaded_once s) (budget s) else s, BErr)
+  | ODeleteStoreF id applied =>
+      (* the failing call is the last of DeleteStore's three Removes (the record itself); the weights were removed before
+         and are put back on the error path *)
+      (if applied then SS (del (stores s) id) (lweight s) (rweight s) (base_r s) (ldb s) (batch s) (cache_size s) (use_rs s) (loaded_once s) (budget s) else s, BErr)
+  | OSaveWeightF id lw rw stage applied =>
+      (* SaveStoreWeight puts the old values of both keys back when one of its two writes fails (0d04e9a): whichever
+         write failed, applied or not, nothing has changed *)
+      (s, BErr)
+  | OSaveRegionF id v applied =>
+      (* the injected fault sits on Storage.Base: in region-storage mode the call does not touch it *)
+      if use_rs s then save_region s id v else
+      (if applied then SS (stores s) (lweight s) (rweight s) (put (base_r s) id v) (ldb s) (batch s) (cache_size s) (use_rs s) (loaded_once s) (budget s) else s, BErr)
+  | ODeleteRegionF id applied =>
+      if use_rs s then delete_region s id else
+      (if applied then SS (stores s) (lweight s) (rweight s) (del (base_r s) id) (ldb s) (batch s) (cache_size s) (use_rs s) (loaded_once s) (budget s) else s, BErr)
+  | OTick => (flush_batch s, BUnit)
+  | OCrashInFlush written =>
+      let s1 := if written then flush_batch s else s in
+      (SS (stores s1) (lweight s1) (rweight s1) (base_r s1) (ldb s1) [] 0 (use_rs s1) false (budget s1), BUnit)
   | OLoadIntoCache =>
       let rs := use_rs s in
       let m := regions_of s rs in
@@ -245,7 +281,7 @@ Definition store_eqb (a b : Z * Z * Z * Z) : bool :=
   let '(a1, a2, a3, a4) := a in let '(b1, b2, b3, b4) := b in (a1 =? b1) && (a2 =? b2) && (a3 =? b3) && (a4 =? b4).
 Definition obs_eqb (a b : obs) : bool :=
   match a, b with
-  | BUnit, BUnit | BSkipped, BSkipped => true
+  | BUnit, BUnit | BSkipped, BSkipped | BErr, BErr => true
   | BStores s l, BStores s' l' => status_eqb s s' && list_eqb store_eqb l l'
   | BRegions s l, BRegions s' l' => status_eqb s s' && list_eqb item_eqb l l'
   | BCache s l c m, BCache s' l' c' m' =>
@@ -256,11 +292,11 @@ Definition obs_eqb (a b : obs) : bool :=
 Definition model_obs (ops : list op) : list obs := run run_op sinit ops.
 
 (* the printed diff keeps only positions and a short tag: observations can be 10^4 items long *)
-Inductive otag := TUnit | TStores (st : status) (n : nat) | TRegions (st : status) (n : nat)
+Inductive otag := TErr | TUnit | TStores (st : status) (n : nat) | TRegions (st : status) (n : nat)
                 | TCache (st : status) (n c m : nat) | TSkipped.
 Definition tag (b : obs) : otag :=
   match b with
-  | BUnit => TUnit | BSkipped => TSkipped
+  | BUnit => TUnit | BSkipped => TSkipped | BErr => TErr
   | BStores s l => TStores s (length l) | BRegions s l => TRegions s (length l)
   | BCache s l c m => TCache s (length l) (length c) (length m)
   end.
@@ -292,9 +328,23 @@ Record want := W {
   w_known : bool;            (* false after a crash / while unflushed saves exist in region-storage mode *)
   w_rs : bool;
   w_deleted : list (Z * bool); (* ids deleted since they were last saved; true = the save was still unflushed *)
-  w_pending : list Z         (* region-storage mode: ids saved since the last explicit flush *)
+  w_pending : list Z;        (* region-storage mode: ids saved since the last explicit flush *)
+  w_unsure : list (bool * Z) (* (true = store, id): a write of it returned an error, it may or may not have been applied *)
 }.
-Definition winit : want := W [] [] [] [] true false [] [].
+Definition winit : want := W [] [] [] [] true false [] [] [].
+
+(* an errored write is resolved by what the next complete load shows: either outcome is allowed *)
+Definition unsure_ids (st : bool) (u : list (bool * Z)) : list Z := map snd (filter (fun x => Bool.eqb (fst x) st) u).
+Definition resolve_regions (want_l got : amap rv) (ids : list Z) : amap rv :=
+  fold_left (fun m id => match lookup got id with Some v => put m id v | None => del m id end) ids want_l.
+Definition find_store (got : list (Z * Z * Z * Z)) (id : Z) : option (Z * Z * Z) :=
+  match find (fun x => let '(k, _, _, _) := x in k =? id) got with Some (_, p, l, r) => Some (p, l, r) | None => None end.
+Definition resolve_stores (w : amap Z * amap Z * amap Z) (got : list (Z * Z * Z * Z)) (ids : list Z) : amap Z * amap Z * amap Z :=
+  fold_left (fun t id => let '(st, lw, rw) := t in
+                         match find_store got id with
+                         | Some (p, l, r) => (put st id p, put lw id l, put rw id r)
+                         | None => (del st id, lw, rw)
+                         end) ids w.
 Definition del_sig (k : Z) (deleted : list (Z * bool)) : option string :=
   match find (fun d => fst d =? k) deleted with
   | Some (_, true) => Some "C17:region-storage:deleted-region-still-loaded"
@@ -338,16 +388,33 @@ Fixpoint pairwise_disjoint (l : list (Z * rv)) : bool :=
    compared with the wanted content; the pruning clauses (cache vs storage) are judged regardless *)
 Definition dirty (w : want) : bool := match w_pending w with [] => false | _ => true end.
 
+Definition w_save (w : want) (id : Z) (v : rv) : want :=
+  W (w_stores w) (w_lw w) (w_rw w) (put (w_regions w) id v) (w_known w) (w_rs w)
+    (filter (fun d => negb (fst d =? id)) (w_deleted w)) (if w_rs w then id :: w_pending w else w_pending w) (w_unsure w).
+Definition w_delete (w : want) (id : Z) : want :=
+  W (w_stores w) (w_lw w) (w_rw w) (del (w_regions w) id) (w_known w) (w_rs w)
+    ((id, memZ id (w_pending w)) :: w_deleted w) (w_pending w) (w_unsure w).
+Definition w_flush (w : want) : want :=
+  W (w_stores w) (w_lw w) (w_rw w) (w_regions w) (w_known w) (w_rs w) (w_deleted w) [] (w_unsure w).
+Definition w_crash (w : want) : want :=
+  W (w_stores w) (w_lw w) (w_rw w) (w_regions w) false (w_rs w) (w_deleted w) [] (w_unsure w).
+
 Fixpoint mon (w : want) (ops : list op) (obs_l : list obs) : option string :=
   match ops, obs_l with
   | o :: r, b :: br =>
       match o, b with
-      | OSaveStore id p, _ => mon (W (put (w_stores w) id p) (w_lw w) (w_rw w) (w_regions w) (w_known w) (w_rs w) (w_deleted w) (w_pending w)) r br
-      | ODeleteStore id, _ => mon (W (del (w_stores w) id) (w_lw w) (w_rw w) (w_regions w) (w_known w) (w_rs w) (w_deleted w) (w_pending w)) r br
-      | OSaveWeight id l rw, _ => mon (W (w_stores w) (put (w_lw w) id l) (put (w_rw w) id rw) (w_regions w) (w_known w) (w_rs w) (w_deleted w) (w_pending w)) r br
+      | OSaveStore id p, _ => mon (W (put (w_stores w) id p) (w_lw w) (w_rw w) (w_regions w) (w_known w) (w_rs w) (w_deleted w) (w_pending w) (w_unsure w)) r br
+      | ODeleteStore id, _ => mon (W (del (w_stores w) id) (del (w_lw w) id) (del (w_rw w) id) (w_regions w) (w_known w) (w_rs w) (w_deleted w) (w_pending w) (w_unsure w)) r br
+      | OSaveWeight id l rw, _ => mon (W (w_stores w) (put (w_lw w) id l) (put (w_rw w) id rw) (w_regions w) (w_known w) (w_rs w) (w_deleted w) (w_pending w) (w_unsure w)) r br
       | OLoadStores, BStores st got =>
           match st with
-          | RDone => match diff_stores (w_stores w) (w_lw w) (w_rw w) got with Some sg => Some sg | None => mon w r br end
+          | RDone =>
+              let '(st', lw', rw') := resolve_stores (w_stores w, w_lw w, w_rw w) got (unsure_ids true (w_unsure w)) in
+              match diff_stores st' lw' rw' got with
+              | Some sg => Some sg
+              | None => mon (W st' lw' rw' (w_regions w) (w_known w) (w_rs w) (w_deleted w) (w_pending w)
+                               (filter (fun x => negb (fst x)) (w_unsure w))) r br
+              end
           | RDiverged => Some "C17:load:endless-scan"
           | RFailed => Some "C17:load:stores-load-did-not-finish"
           end
@@ -355,15 +422,15 @@ Fixpoint mon (w : want) (ops : list op) (obs_l : list obs) : option string :=
           mon (W (w_stores w) (w_lw w) (w_rw w) (put (w_regions w) id v)
                  (* in region-storage mode the save is only promised after the next flush *)
                  (w_known w) (w_rs w) (filter (fun d => negb (fst d =? id)) (w_deleted w))
-                 (if w_rs w then id :: w_pending w else w_pending w)) r br
+                 (if w_rs w then id :: w_pending w else w_pending w) (w_unsure w)) r br
       | ODeleteRegion id, _ =>
-          mon (W (w_stores w) (w_lw w) (w_rw w) (del (w_regions w) id) (w_known w) (w_rs w) ((id, memZ id (w_pending w)) :: w_deleted w) (w_pending w)) r br
+          mon (W (w_stores w) (w_lw w) (w_rw w) (del (w_regions w) id) (w_known w) (w_rs w) ((id, memZ id (w_pending w)) :: w_deleted w) (w_pending w) (w_unsure w)) r br
       | OSwitch rs, _ =>
           (* the two backends hold different sets: what is wanted is no longer tracked *)
-          mon (W (w_stores w) (w_lw w) (w_rw w) (w_regions w) (if Bool.eqb rs (w_rs w) || (match w_regions w with [] => true | _ => false end) then w_known w else false) rs (w_deleted w) (w_pending w)) r br
-      | OCrash, _ => mon (W (w_stores w) (w_lw w) (w_rw w) (w_regions w) false (w_rs w) (w_deleted w) []) r br
+          mon (W (w_stores w) (w_lw w) (w_rw w) (w_regions w) (if Bool.eqb rs (w_rs w) || (match w_regions w with [] => true | _ => false end) then w_known w else false) rs (w_deleted w) (w_pending w) (w_unsure w)) r br
+      | OCrash, _ => mon (W (w_stores w) (w_lw w) (w_rw w) (w_regions w) false (w_rs w) (w_deleted w) [] (w_unsure w)) r br
       | OFlush, _ | OReopen, _ =>
-          mon (W (w_stores w) (w_lw w) (w_rw w) (w_regions w) (w_known w) (w_rs w) (w_deleted w) []) r br
+          mon (W (w_stores w) (w_lw w) (w_rw w) (w_regions w) (w_known w) (w_rs w) (w_deleted w) [] (w_unsure w)) r br
       | OBudget _, _ => mon w r br
       | OLoadRegions, BRegions st got | OLoadOnce, BRegions st got =>
           if negb (sorted_ids_b 0 got) then Some "C17:load:region-loaded-twice-or-out-of-order"
@@ -371,34 +438,45 @@ Fixpoint mon (w : want) (ops : list op) (obs_l : list obs) : option string :=
                | RDone =>
                    if dirty w then mon w r br
                    else if w_known w then
-                     match diff_load (w_regions w) got (w_deleted w) with
+                     let want' := resolve_regions (w_regions w) got (unsure_ids false (w_unsure w)) in
+                     match diff_load want' got (w_deleted w) with
                      | Some sg => Some sg
-                     | None => mon w r br
+                     | None => mon (W (w_stores w) (w_lw w) (w_rw w) want' true (w_rs w) (w_deleted w) (w_pending w)
+                                      (filter fst (w_unsure w))) r br
                      end
                    else (* resynchronise on what the storage really holds *)
-                     mon (W (w_stores w) (w_lw w) (w_rw w) got true (w_rs w) [] (w_pending w)) r br
+                     mon (W (w_stores w) (w_lw w) (w_rw w) got true (w_rs w) [] (w_pending w) (filter fst (w_unsure w))) r br
                | RDiverged => Some "C17:load:endless-scan"
                | RFailed => mon w r br   (* a failed load promises nothing *)
                end
       | OLoadOnce, BSkipped => mon w r br
+      | OSaveStoreF id _ _, BErr | ODeleteStoreF id _, BErr | OSaveWeightF id _ _ _ _, BErr =>
+          mon (W (w_stores w) (w_lw w) (w_rw w) (w_regions w) (w_known w) (w_rs w) (w_deleted w) (w_pending w) ((true, id) :: w_unsure w)) r br
+      | OSaveRegionF id _ _, BErr | ODeleteRegionF id _, BErr =>
+          mon (W (w_stores w) (w_lw w) (w_rw w) (w_regions w) (w_known w) (w_rs w) (w_deleted w) (w_pending w) ((false, id) :: w_unsure w)) r br
+      | OSaveRegionF id v _, BUnit => mon (w_save w id v) r br
+      | ODeleteRegionF id _, BUnit => mon (w_delete w id) r br
+      | OTick, _ => mon (w_flush w) r br
+      | OCrashInFlush _, _ => mon (w_crash w) r br
       | OLoadIntoCache, BCache st loaded c after =>
           match st with
           | RDone =>
-              match (if w_known w && negb (dirty w) then diff_load (w_regions w) loaded (w_deleted w) else None) with
+              match (if w_known w && negb (dirty w)
+                     then diff_load (resolve_regions (w_regions w) loaded (unsure_ids false (w_unsure w))) loaded (w_deleted w) else None) with
               | Some sg => Some sg
               | None =>
               if negb (sorted_ids_b 0 loaded) then Some "C17:load:region-loaded-twice-or-out-of-order"
               else if negb (pairwise_disjoint c) then Some "C17:prune:cache-overlaps"
               else if list_eqb item_eqb c after
                    then (if dirty w
-                         then mon (W (w_stores w) (w_lw w) (w_rw w) (w_regions w) false (w_rs w) (w_deleted w) (w_pending w)) r br
-                         else mon (W (w_stores w) (w_lw w) (w_rw w) after true (w_rs w) [] (w_pending w)) r br)
+                         then mon (W (w_stores w) (w_lw w) (w_rw w) (w_regions w) false (w_rs w) (w_deleted w) (w_pending w) (w_unsure w)) r br
+                         else mon (W (w_stores w) (w_lw w) (w_rw w) after true (w_rs w) [] (w_pending w) (filter fst (w_unsure w))) r br)
               else if list_eqb item_eqb c (filter (fun it => negb (fst it =? max_id)) after)
                    then Some "C17:prune:max-id-left-in-storage"
               else Some "C17:prune:storage-differs-from-cache"
               end
           | RDiverged => Some "C17:load:endless-scan"
-          | RFailed => mon (W (w_stores w) (w_lw w) (w_rw w) after false (w_rs w) [] (w_pending w)) r br
+          | RFailed => mon (W (w_stores w) (w_lw w) (w_rw w) after false (w_rs w) [] (w_pending w) (w_unsure w)) r br
           end
       | _, _ => Some "C17:unexpected-answer"
       end
